@@ -68,7 +68,7 @@ ssize_t io::queue::read(size_t len, void *d, size_t part)
 {
 	size_t done = 0;
 	while (done < len) {
-		if (!mpt_qpop(&_d, part, d)) {
+		if (!mpt_qshift(&_d, part, d)) {
 			return done;
 		}
 		++done;
